@@ -203,6 +203,27 @@ def sweep(pt, T, label, path, acc):
                         bad("magnetic-formfactor:" + kind, [Z, q, Q], wantv, gotv,
                             "print(T[%d].magnetic_ff[%d].%s_Q(%r))" % (Z, q, kind, Q))
                         break
+                # the same grid as one float64 array, evaluated twice (the caller's array must not be altered and
+                # the second evaluation must give the same, correct, values)
+                import numpy as np
+                Qarr = np.array(QGRID, dtype=float)
+                cells += 1
+                try:
+                    v1 = np.asarray(fn(Qarr), dtype=float).tolist()
+                    same = Qarr.tolist() == list(QGRID)
+                    v2 = np.asarray(fn(Qarr), dtype=float).tolist()
+                except Exception as e:
+                    bad("magnetic-formfactor-vector-raises:" + kind, [Z, q], "values", "%s: %s" % (type(e).__name__, e),
+                        "import numpy\nprint(T[%d].magnetic_ff[%d].%s_Q(numpy.array(%r)))" % (Z, q, kind, list(QGRID)))
+                else:
+                    wantv = [ff0(ref_c, Q) if kind in ("j0", "J") else ffn(ref_c, Q) for Q in QGRID]
+                    vcode = ("import numpy\nQ = numpy.array(%r)\nm = T[%d].magnetic_ff[%d]\nprint(m.%s_Q(Q)); print(Q); print(m.%s_Q(Q))"
+                             % (list(QGRID), Z, q, kind, kind))
+                    if not same:
+                        bad("magnetic-formfactor-alters-its-argument:" + kind, [Z, q], list(QGRID), Qarr.tolist(), vcode)
+                    elif not all(close(a, b, 1e-9, 1e-12) for a, b in zip(v1, wantv)) or \
+                            not all(close(a, b, 1e-9, 1e-12) for a, b in zip(v2, wantv)) or len(v1) != len(wantv):
+                        bad("magnetic-formfactor-vector:" + kind, [Z, q], wantv, (v1, v2), vcode)
                 if kind == "j0":
                     cells += 2
                     v0 = float(m.j0_Q(0.0))
